@@ -1,5 +1,42 @@
 (* MetaProofs.v -- meta-event emission (C10), time frozen per step (C13), sent events (C15, model
-   level) for the interpreter model of theories/Interp.v. *)
+   level) for the interpreter model of theories/Interp.v.  No axioms; every main theorem is
+   followed by Print Assumptions at the end of the file.
+
+   Method.  A relation between the state before and after a monadic computation, indexed by its
+   outcome, that is reflexive and chains (presK) is preserved by bind/mapM/iterM, so it only has
+   to be established on the leaves (Sections Pres, PresQuiet, PresAll: every function of Interp.v
+   below execute_once is covered once, generically in the relation).  Instances:
+     Rq  quiet functions: listeners, clock, time stamps, queues untouched, no meta-event;
+     Rt / Rt2 (= RK ..)  clock untouched, every evaluator call sees it, listeners' state = feed,
+         fail fast (emits_ok);
+     Re  entry/idle stamps as a function of the emitted meta-events;
+     Rs  internal queue as a function of the emitted 'event sent'.
+   Outcome-dependent facts (which meta-events) use mspec/grows.
+
+   Main statements (Section MetaProofs: ctx X exec_code eval_code emit sc):
+     C13_frozen              execute_once, any outcome: i_time = now afterwards; all new trace
+                             entries satisfy time_obs now; m_x s' = feed now (new metas) (m_x s)
+                             (every emit call got now); emits_ok (fail fast); macro time = now.
+     queue_time, queue_event_time   queue / _queue_event do not touch i_time.
+     C10_apply_step_meta     (needs names_ok) metas of one apply_step = spec_meta_micro / prefix.
+     apply_step_metas_gen    the same without names_ok, in terms of the .name of the state objects.
+     C10_complete            (names_ok) metas of a returning execute_once = spec_meta now macro.
+     C10_prefix              (names_ok) raising execute_once: a prefix of spec_meta now macro'.
+     C10_sync_execute        every execute_once inside execute fuel now runs at now.
+     C15_sent_truth, C15_self_raise_event, C15_self_run_steps, C15_self, C15_self_In.
+     C13_entry_idle          (names_ok) entry/idle time stamps after a returning execute_once.
+     C13_after_idle_base     what mk_call exposes as bases of after()/idle().
+   Section NonIntrusive (two listener functions):
+     C10_nonintrusive, C10_nonintrusive_never, C10_nonintrusive_or_raised, C10_nonintrusive_ok.
+   Module NamesOkNeeded: C10_complete_without_names_ok_refuted (the hypothesis names_ok --
+     Statechart._states[n].name = n -- cannot be dropped; names_okb decides it).
+
+   Weaker than / different from the informal wish list:
+   - everything about WHICH meta-events needs names_ok (refuted otherwise);
+   - "every emit call receives now" is stated as m_x s' = feed now metas (m_x s);
+   - C10_nonintrusive compares a run A (any listeners) with a run B whose listeners never raise,
+     under the hypothesis that A's listener calls returned normally IN THIS RUN (feed_ok); the
+     symmetric "neither ever raises" version is C10_nonintrusive_never. *)
 From Coq Require Import String List Bool ZArith Lia.
 From Sismic Require Import Base Chart Interp.
 Import ListNotations.
@@ -1980,7 +2017,467 @@ Section MetaProofs.
   Qed.
 End MetaProofs.
 
+(* ====================================================================== C10_nonintrusive *)
+(* Two runs of the same interpreter on the same chart with different listeners: A (listener state
+   Xa, emit_a) and B (Xb, emit_b, never raises -- e.g. no listener at all, World.emit0).  As long
+   as A's listeners return normally the two runs are in lock step: same interpreter state, same
+   trace, same outcomes.  The listeners only ever see meta-events and only write their own
+   component m_x. *)
+Section NonIntrusive.
+  Variable ctx : Type.
+  Variable exec_code : call ctx -> ctx -> option (ctx * list event).
+  Variable eval_code : call ctx -> ctx -> option bool.
+  Variable sc : chart.
+  Variables Xa Xb : Type.
+  Variable emit_a : Z -> meta -> Xa -> Xa * option err.
+  Variable emit_b : Z -> meta -> Xb -> Xb * option err.
+  Hypothesis emit_b_ok : forall t m x, snd (emit_b t m x) = None.
+
+  Notation Sa := (mstate ctx Xa).
+  Notation Sb := (mstate ctx Xb).
+  Notation Ma := (M ctx Xa).
+  Notation Mb := (M ctx Xb).
+  Notation ist := (istate ctx).
+
+  Definition sim (sa : Sa) (sb : Sb) : Prop := m_i sa = m_i sb /\ m_tr sa = m_tr sb.
+
+  (* all listener calls of A between sa and sa' returned normally *)
+  Definition okA (sa sa' : Sa) : Prop :=
+    forall l, m_tr sa' = l ++ m_tr sa ->
+              feed_ok Xa emit_a (i_time (m_i sa)) (tr_metas ctx l) (m_x sa).
+
+  Definition anyobs (t : Z) (o : obs ctx) : Prop := True.
+  Notation Ra := (RK ctx Xa emit_a anyobs).
+  Definition Ra_refl := RK_refl ctx Xa emit_a anyobs.
+  Definition Ra_trans := RK_trans ctx Xa emit_a anyobs.
+
+  Definition relM {A} (ma : Ma A) (mb : Mb A) : Prop :=
+    presK ctx Xa Ra ma /\
+    forall sa sb sa' ra sb' rb,
+      sim sa sb -> ma sa = (sa', ra) -> mb sb = (sb', rb) -> okA sa sa' ->
+      sim sa' sb' /\ ra = rb.
+
+  Lemma Rt_Ra {A} (m : Ma A) : presK ctx Xa (Rt ctx Xa emit_a) m -> presK ctx Xa Ra m.
+  Proof. intros H s s' r E. eapply RK_mono; [|eapply H; eauto]. intros; exact I. Qed.
+
+  Lemma rel_ret {A} (a : A) : relM (ret ctx Xa a) (ret ctx Xb a).
+  Proof.
+    split; [apply pres_ret; exact Ra_refl|].
+    intros sa sb sa' ra sb' rb S Ha Hb _. inversion Ha; inversion Hb; subst. auto.
+  Qed.
+  Lemma rel_fail {A} e : relM (@fail ctx Xa A e) (@fail ctx Xb A e).
+  Proof.
+    split; [apply pres_fail; exact Ra_refl|].
+    intros sa sb sa' ra sb' rb S Ha Hb _. inversion Ha; inversion Hb; subst. auto.
+  Qed.
+
+  Lemma rel_bind {A B} (ma : Ma A) (mb : Mb A) (fa : A -> Ma B) (fb : A -> Mb B) :
+    relM ma mb -> (forall a, relM (fa a) (fb a)) -> relM (bind ctx Xa ma fa) (bind ctx Xb mb fb).
+  Proof.
+    intros [Pm Sm] Hf. split.
+    { apply pres_bind; [exact Ra_trans | exact Pm | intros a; apply Hf]. }
+    intros sa sb sa' ra sb' rb S Ha Hb Ok.
+    apply bind_inv in Ha. destruct Ha as [(sa1 & a & Ha1 & Ha2)|(e & Ha1 & ->)].
+    - pose proof (Pm _ _ _ Ha1) as (T1 & l1 & L1 & _ & X1 & _).
+      destruct (Hf a) as [Pf Sf]. pose proof (Pf _ _ _ Ha2) as (T2 & l2 & L2 & _).
+      assert (Ok' : feed_ok Xa emit_a (i_time (m_i sa)) (tr_metas ctx (l2 ++ l1)) (m_x sa)).
+      { apply Ok. now rewrite L2, L1, app_assoc. }
+      rewrite tr_metas_app in Ok'. apply feed_ok_app in Ok'. destruct Ok' as [Ok1 Ok2].
+      assert (OkA1 : okA sa sa1).
+      { intros l Hl. assert (l = l1) by (apply (app_inv_tail (m_tr sa)); congruence). now subst. }
+      unfold bind in Hb. destruct (mb sb) as [sb1 rb1] eqn:Eb.
+      destruct (Sm _ _ _ _ _ _ S Ha1 Eb OkA1) as [S1 <-].
+      eapply Sf; eauto.
+      intros l Hl. assert (l = l2) by (apply (app_inv_tail (m_tr sa1)); congruence). subst.
+      now rewrite T1, X1.
+    - unfold bind in Hb. destruct (mb sb) as [sb1 rb1] eqn:Eb.
+      destruct (Sm _ _ _ _ _ _ S Ha1 Eb Ok) as [S1 <-]. inversion Hb; subst. auto.
+  Qed.
+
+  Lemma rel_get_bind {A} (fa : ist -> Ma A) (fb : ist -> Mb A) :
+    (forall i, relM (fa i) (fb i)) -> relM (bind ctx Xa (get ctx Xa) fa) (bind ctx Xb (get ctx Xb) fb).
+  Proof.
+    intros Hf. split.
+    { apply pres_bind; [exact Ra_trans | apply pres_get; exact Ra_refl | intros a; apply Hf]. }
+    intros sa sb sa' ra sb' rb S Ha Hb Ok. rewrite bind_get in Ha, Hb.
+    destruct S as [Si St]. rewrite <- Si in Hb. eapply (Hf (m_i sa)); eauto. split; auto.
+  Qed.
+
+  Lemma rel_get : relM (get ctx Xa) (get ctx Xb).
+  Proof.
+    split; [apply pres_get; exact Ra_refl|].
+    intros sa sb sa' ra sb' rb [Si St] Ha Hb _. inversion Ha; inversion Hb; subst.
+    split; [split; auto|]. now rewrite Si.
+  Qed.
+
+  Lemma rel_ext {A} (ma ma' : Ma A) (mb mb' : Mb A) :
+    (forall s, ma s = ma' s) -> (forall s, mb s = mb' s) -> relM ma' mb' -> relM ma mb.
+  Proof.
+    intros Ea Eb [P S]. split.
+    - intros s s' r H. rewrite Ea in H. eapply P; eauto.
+    - intros sa sb sa' ra sb' rb Si Ha Hb Ok. rewrite Ea in Ha. rewrite Eb in Hb. eapply S; eauto.
+  Qed.
+
+  Lemma rel_mapM {A B} (fa : A -> Ma B) (fb : A -> Mb B) l :
+    (forall a, relM (fa a) (fb a)) -> relM (mapM ctx Xa fa l) (mapM ctx Xb fb l).
+  Proof.
+    intros Hf. induction l as [|x l IH]; cbn [mapM].
+    - apply rel_ret.
+    - apply rel_bind; [apply Hf|]. intros y. apply rel_bind; [apply IH|]. intros ys. apply rel_ret.
+  Qed.
+  Lemma rel_iterM {A} (fa : A -> Ma unit) (fb : A -> Mb unit) l :
+    (forall a, relM (fa a) (fb a)) -> relM (iterM ctx Xa fa l) (iterM ctx Xb fb l).
+  Proof.
+    intros Hf. induction l as [|x l IH]; cbn [iterM].
+    - apply rel_ret.
+    - apply rel_bind; [apply Hf|]. intros _. apply IH.
+  Qed.
+
+  Lemma Ra_mi (st : Sa) i : i_time i = i_time (m_i st) -> Ra st (mkM i (m_x st) (m_tr st)) None.
+  Proof. intros H. split; auto. exists []. repeat split; auto. left. exact I. Qed.
+
+  Lemma rel_modify g : (forall i : ist, i_time (g i) = i_time i) -> relM (modify ctx Xa g) (modify ctx Xb g).
+  Proof.
+    intros Hg. split.
+    { apply pres_modify. intros st. apply Ra_mi, Hg. }
+    intros sa sb sa' ra sb' rb [Si St] Ha Hb _. inversion Ha; inversion Hb; subst.
+    split; [split; cbn; congruence | reflexivity].
+  Qed.
+
+  Lemma rel_observe o :
+    tr_metas ctx [o] = [] -> relM (observe ctx Xa o) (observe ctx Xb o).
+  Proof.
+    intros Ho. split.
+    { apply pres_observe. intros st. split; [reflexivity|]. exists [o]. split; [reflexivity|].
+      split; [repeat constructor|]. split; [now rewrite Ho|]. left. rewrite Ho. exact I. }
+    intros sa sb sa' ra sb' rb [Si St] Ha Hb _. inversion Ha; inversion Hb; subst.
+    split; [split; cbn; congruence | reflexivity].
+  Qed.
+
+  Lemma rel_raise_meta m : relM (raise_meta ctx Xa emit_a m) (raise_meta ctx Xb emit_b m).
+  Proof.
+    split; [apply RK_meta; intros; exact I|].
+    intros sa sb sa' ra sb' rb [Si St] Ha Hb Ok.
+    apply raise_meta_spec in Ha. destruct Ha as [-> ->].
+    apply raise_meta_spec in Hb. destruct Hb as [-> ->].
+    specialize (Ok [ObMeta m] eq_refl). cbn in Ok. destruct Ok as [Ok _]. rewrite Ok, emit_b_ok.
+    split; [split; cbn; congruence | reflexivity].
+  Qed.
+
+  Ltac rstep :=
+    lazymatch goal with
+    | |- relM (Interp.ret _ _ _) _ => apply rel_ret
+    | |- relM (Interp.fail _ _ _) _ => apply rel_fail
+    | |- relM (Interp.bind _ _ (Interp.get _ _) _) _ => apply rel_get_bind; intros ?
+    | |- relM (Interp.bind _ _ _ _) _ => apply rel_bind; [ | intros ?]
+    | |- relM (Interp.mapM _ _ _ _) _ => apply rel_mapM; intros ?
+    | |- relM (Interp.iterM _ _ _ _) _ => apply rel_iterM; intros ?
+    | |- relM (Interp.modify _ _ _) _ => apply rel_modify; intros ?
+    | |- relM (Interp.observe _ _ _) _ => apply rel_observe; reflexivity
+    | |- relM (Interp.raise_meta _ _ _ _) _ => apply rel_raise_meta
+    | |- relM (Interp.get _ _) _ => apply rel_get
+    | |- relM (match ?x with _ => _ end) _ => destruct x
+    | |- relM (let _ := _ in _) _ => cbv zeta
+    end.
+  Ltac rq := repeat rstep; auto.
+
+  (* ---- leaves that read and write the interpreter state ---- *)
+  Lemma rel_run_code k o cd ev :
+    relM (run_code ctx Xa exec_code sc k o cd ev) (run_code ctx Xb exec_code sc k o cd ev).
+  Proof.
+    split; [apply Rt_Ra, (Rt_run_code ctx Xa exec_code eval_code emit_a sc)|].
+    intros sa sb sa' ra sb' rb [Si St] Ha Hb _. unfold run_code in Ha, Hb.
+    rewrite bind_get in Ha, Hb. rewrite <- Si in Hb. cbv zeta in Ha, Hb.
+    destruct cd as [c|].
+    - destruct (exec_code _ _) as [[ctx' sent]|].
+      + rewrite bind_observe, bind_put in Ha, Hb. inversion Ha; inversion Hb; subst.
+        split; [split; cbn; congruence | reflexivity].
+      + rewrite bind_observe in Ha, Hb. inversion Ha; inversion Hb; subst.
+        split; [split; cbn; congruence | reflexivity].
+    - rewrite bind_observe in Ha, Hb. inversion Ha; inversion Hb; subst.
+      split; [split; cbn; congruence | reflexivity].
+  Qed.
+
+  Lemma rel_eval_cond k o i cd ev :
+    relM (eval_cond ctx Xa eval_code sc k o i cd ev) (eval_cond ctx Xb eval_code sc k o i cd ev).
+  Proof.
+    split; [apply Rt_Ra, (Rt_eval_cond ctx Xa exec_code eval_code emit_a sc)|].
+    intros sa sb sa' ra sb' rb [Si St] Ha Hb _. unfold eval_cond in Ha, Hb.
+    rewrite bind_get in Ha, Hb. rewrite <- Si in Hb. cbv zeta in Ha, Hb.
+    destruct (eval_code _ _) as [b|]; rewrite bind_observe in Ha, Hb;
+      inversion Ha; inversion Hb; subst; (split; [split; cbn; congruence | reflexivity]).
+  Qed.
+
+  Lemma rel_consume_event : relM (consume_event ctx Xa) (consume_event ctx Xb).
+  Proof.
+    split; [apply Rt_Ra, Rt_consume_event|].
+    intros sa sb sa' ra sb' rb [Si St] Ha Hb _. unfold consume_event in Ha, Hb.
+    rewrite bind_get in Ha, Hb. rewrite <- Si in Hb.
+    destruct (i_iq (m_i sa)) as [|[t e] q'].
+    - destruct (i_eq (m_i sa)) as [|[t2 e2] q2].
+      + inversion Ha; inversion Hb; subst. split; [split; cbn; congruence | reflexivity].
+      + destruct (t2 <=? i_time (m_i sa))%Z; [rewrite bind_put in Ha, Hb|];
+          inversion Ha; inversion Hb; subst; (split; [split; cbn; congruence | reflexivity]).
+    - destruct (t <=? i_time (m_i sa))%Z.
+      + rewrite bind_put in Ha, Hb. inversion Ha; inversion Hb; subst.
+        split; [split; cbn; congruence | reflexivity].
+      + destruct (i_eq (m_i sa)) as [|[t2 e2] q2].
+        * inversion Ha; inversion Hb; subst. split; [split; cbn; congruence | reflexivity].
+        * destruct (t2 <=? i_time (m_i sa))%Z; [rewrite bind_put in Ha, Hb|];
+            inversion Ha; inversion Hb; subst; (split; [split; cbn; congruence | reflexivity]).
+  Qed.
+
+  (* ---- the quiet functions ---- *)
+  Lemma rel_eval_conds k o cds : forall idx ev,
+    relM (eval_conds ctx Xa eval_code sc k o idx cds ev) (eval_conds ctx Xb eval_code sc k o idx cds ev).
+  Proof.
+    induction cds as [|cd rest IH]; intros idx ev; cbn [eval_conds]; rq. apply rel_eval_cond.
+  Qed.
+
+  Lemma rel_contract k o pre post inv ev :
+    relM (contract ctx Xa eval_code sc k o pre post inv ev) (contract ctx Xb eval_code sc k o pre post inv ev).
+  Proof. unfold contract. rq; apply rel_eval_conds. Qed.
+
+  Lemma rel_state_contract k st ev :
+    relM (state_contract ctx Xa eval_code sc k st ev) (state_contract ctx Xb eval_code sc k st ev).
+  Proof. apply rel_contract. Qed.
+  Lemma rel_trans_contract k it ev :
+    relM (trans_contract ctx Xa eval_code sc k it ev) (trans_contract ctx Xb eval_code sc k it ev).
+  Proof. apply rel_contract. Qed.
+
+  Lemma rel_eval_guards ex ts :
+    relM (eval_guards ctx Xa eval_code sc ex ts) (eval_guards ctx Xb eval_code sc ex ts).
+  Proof. induction ts as [|it rest IH]; cbn [eval_guards]; rq. apply rel_eval_cond. Qed.
+
+  Lemma rel_sel_priorities ex gs :
+    relM (sel_priorities ctx Xa eval_code sc ex gs) (sel_priorities ctx Xb eval_code sc ex gs).
+  Proof. induction gs as [|[p ts] rest IH]; cbn [sel_priorities]; rq. apply rel_eval_guards. Qed.
+
+  Lemma rel_sel_sources ex gs : forall sel ign,
+    relM (sel_sources ctx Xa eval_code sc ex gs sel ign) (sel_sources ctx Xb eval_code sc ex gs sel ign).
+  Proof.
+    induction gs as [|[src ts] rest IH]; intros sel ign; cbn [sel_sources]; rq. apply rel_sel_priorities.
+  Qed.
+
+  Lemma rel_sel_depths ex gs : forall sel ign,
+    relM (sel_depths ctx Xa eval_code sc ex gs sel ign) (sel_depths ctx Xb eval_code sc ex gs sel ign).
+  Proof.
+    induction gs as [|[d ts] rest IH]; intros sel ign; cbn [sel_depths]; rq. apply rel_sel_sources.
+  Qed.
+
+  Lemma rel_sel_eventness ev gs : forall sel,
+    relM (sel_eventness ctx Xa eval_code sc ev gs sel) (sel_eventness ctx Xb eval_code sc ev gs sel).
+  Proof.
+    induction gs as [|[h ts] rest IH]; intros sel; cbn [sel_eventness]; rq. apply rel_sel_depths.
+  Qed.
+
+  Lemma rel_select_transitions ev states :
+    relM (select_transitions ctx Xa eval_code sc ev states) (select_transitions ctx Xb eval_code sc ev states).
+  Proof. apply rel_sel_eventness. Qed.
+
+  Lemma rel_sort_transitions ts : relM (sort_transitions ctx Xa sc ts) (sort_transitions ctx Xb sc ts).
+  Proof. unfold sort_transitions. rq. Qed.
+
+  Lemma rel_record_history active st :
+    relM (record_history ctx Xa sc active st) (record_history ctx Xb sc active st).
+  Proof. unfold record_history. rq. Qed.
+
+  Lemma rel_check_invariants ev :
+    relM (check_invariants ctx Xa eval_code sc ev) (check_invariants ctx Xb eval_code sc ev).
+  Proof. unfold check_invariants. rq. apply rel_state_contract. Qed.
+
+  Lemma rel_compute_steps : relM (compute_steps ctx Xa eval_code sc) (compute_steps ctx Xb eval_code sc).
+  Proof.
+    split; [apply Rt_Ra, (Rt_compute_steps ctx Xa exec_code eval_code emit_a sc)|].
+    intros sa sb sa' ra sb' rb [Si St] Ha Hb Ok. unfold compute_steps in Ha, Hb.
+    rewrite bind_get in Ha, Hb. rewrite <- Si in Hb.
+    destruct (negb (i_initialized (m_i sa))).
+    - rewrite bind_put in Ha, Hb. destruct (root sc); inversion Ha; inversion Hb; subst;
+        (split; [split; cbn; congruence | reflexivity]).
+    - refine (proj2 (_ : relM _ _) _ _ _ _ _ _ (conj Si St) Ha Hb Ok).
+      rq; first [apply rel_select_transitions | apply rel_sort_transitions].
+  Qed.
+
+  (* the one place where the configuration is written back after a read *)
+  Definition frag_cfg (X : Type) (n : name) : M ctx X unit :=
+    bind ctx X (get ctx X) (fun s =>
+      if mem n (i_config s)
+      then put ctx X (set_config ctx (remove_first n (i_config s)) s)
+      else fail ctx X EKey).
+
+  Lemma rel_frag_cfg n : relM (frag_cfg Xa n) (frag_cfg Xb n).
+  Proof.
+    split.
+    - apply pres_get_bind. intros st s' r H. destruct (mem n (i_config (m_i st))).
+      + inversion H; subst. apply Ra_mi. reflexivity.
+      + inversion H; subst. apply Ra_refl.
+    - intros sa sb sa' ra sb' rb [Si St] Ha Hb _. unfold frag_cfg in Ha, Hb.
+      rewrite bind_get in Ha, Hb. rewrite <- Si in Hb.
+      destruct (mem n (i_config (m_i sa))); inversion Ha; inversion Hb; subst;
+        (split; [split; cbn; congruence | reflexivity]).
+  Qed.
+
+  Lemma rel_exit_state active ev st :
+    relM (exit_state ctx Xa exec_code eval_code emit_a sc active ev st)
+         (exit_state ctx Xb exec_code eval_code emit_b sc active ev st).
+  Proof.
+    unfold exit_state.
+    apply rel_bind; [apply rel_run_code | intros sent].
+    apply rel_bind; [apply rel_record_history | intros _].
+    eapply rel_ext with
+      (ma' := bind ctx Xa (frag_cfg Xa (s_name st)) _) (mb' := bind ctx Xb (frag_cfg Xb (s_name st)) _);
+      [reflexivity | reflexivity |].
+    apply rel_bind; [apply rel_frag_cfg | intros _].
+    rq. apply rel_state_contract.
+  Qed.
+
+  Lemma rel_enter_state ev st :
+    relM (enter_state ctx Xa exec_code eval_code emit_a sc ev st)
+         (enter_state ctx Xb exec_code eval_code emit_b sc ev st).
+  Proof. unfold enter_state. rq; first [apply rel_state_contract | apply rel_run_code]. Qed.
+
+  Lemma rel_process_transition ev i :
+    relM (process_transition ctx Xa exec_code eval_code emit_a sc ev i)
+         (process_transition ctx Xb exec_code eval_code emit_b sc ev i).
+  Proof. unfold process_transition. rq; first [apply rel_trans_contract | apply rel_run_code]. Qed.
+
+  Lemma rel_raise_event e : relM (raise_event ctx Xa emit_a e) (raise_event ctx Xb emit_b e).
+  Proof. unfold raise_event. rq. apply queue_event_time. Qed.
+
+  Lemma rel_apply_step step :
+    relM (apply_step ctx Xa exec_code eval_code emit_a sc step)
+         (apply_step ctx Xb exec_code eval_code emit_b sc step).
+  Proof.
+    unfold apply_step.
+    rq; first [apply rel_exit_state | apply rel_process_transition | apply rel_enter_state
+              | apply rel_raise_event].
+  Qed.
+
+  Lemma rel_stabilize fuel :
+    relM (stabilize ctx Xa exec_code eval_code emit_a sc fuel)
+         (stabilize ctx Xb exec_code eval_code emit_b sc fuel).
+  Proof. induction fuel as [|f IH]; cbn [stabilize]; rq. apply rel_apply_step. Qed.
+
+  Lemma rel_run_steps fuel steps :
+    relM (run_steps ctx Xa exec_code eval_code emit_a sc fuel steps)
+         (run_steps ctx Xb exec_code eval_code emit_b sc fuel steps).
+  Proof.
+    induction steps as [|st rest IH]; cbn [run_steps];
+      rq; first [apply rel_apply_step | apply rel_stabilize].
+  Qed.
+
+  Lemma rel_macro_part fuel steps :
+    relM (macro_part ctx Xa exec_code eval_code emit_a sc fuel steps)
+         (macro_part ctx Xb exec_code eval_code emit_b sc fuel steps).
+  Proof.
+    unfold macro_part, consume_part.
+    rq; first [apply rel_consume_event | apply rel_run_steps].
+  Qed.
+
+  (* C10_nonintrusive.  Run A (with listeners) and run B (listeners that never raise, e.g. none)
+     of one execute_once from the same interpreter state and trace: if every listener call of A
+     returned normally, both runs end in the same interpreter state, with the same trace
+     (evaluator calls, their results, meta-events) and the same outcome (macro step or error). *)
+  Theorem C10_nonintrusive fuel now sa sb sa' ra sb' rb :
+    sim sa sb ->
+    execute_once ctx Xa exec_code eval_code emit_a sc fuel now sa = (sa', ra) ->
+    execute_once ctx Xb exec_code eval_code emit_b sc fuel now sb = (sb', rb) ->
+    (forall l, m_tr sa' = l ++ m_tr sa -> feed_ok Xa emit_a now (tr_metas ctx l) (m_x sa)) ->
+    m_i sa' = m_i sb' /\ m_tr sa' = m_tr sb' /\ ra = rb.
+  Proof.
+    intros [Si St] Ha Hb Ok. rewrite execute_once_eq, bind_modify in Ha, Hb.
+    assert (R : sim sa' sb' /\ ra = rb).
+    { refine (proj2 (_ : relM _ _) _ _ _ _ _ _ _ Ha Hb _).
+      - rq; first [apply rel_compute_steps | apply rel_macro_part | apply rel_check_invariants].
+      - split; cbn; congruence.
+      - intros l Hl. cbn in Hl |- *. apply Ok, Hl. }
+    destruct R as [[R1 R2] R3]. auto.
+  Qed.
+
+  Lemma feed_ok_never t ms : (forall t m x, snd (emit_a t m x) = None) -> forall x, feed_ok Xa emit_a t ms x.
+  Proof. intros Hn. induction ms as [|m ms IH]; intros x; cbn; auto. Qed.
+
+  (* (a) listeners that never raise are invisible *)
+  Corollary C10_nonintrusive_never fuel now sa sb sa' ra sb' rb :
+    (forall t m x, snd (emit_a t m x) = None) ->
+    sim sa sb ->
+    execute_once ctx Xa exec_code eval_code emit_a sc fuel now sa = (sa', ra) ->
+    execute_once ctx Xb exec_code eval_code emit_b sc fuel now sb = (sb', rb) ->
+    m_i sa' = m_i sb' /\ m_tr sa' = m_tr sb' /\ ra = rb.
+  Proof.
+    intros Hn S Ha Hb. eapply C10_nonintrusive; eauto. intros l _. now apply feed_ok_never.
+  Qed.
+
+  (* (c) in general: either the listeners raised -- then A stopped right there, with their error,
+     the newest trace entry being the meta-event they raised on -- or the run is that of B *)
+  Corollary C10_nonintrusive_or_raised fuel now sa sb sa' ra sb' rb :
+    sim sa sb ->
+    execute_once ctx Xa exec_code eval_code emit_a sc fuel now sa = (sa', ra) ->
+    execute_once ctx Xb exec_code eval_code emit_b sc fuel now sb = (sb', rb) ->
+    (m_i sa' = m_i sb' /\ m_tr sa' = m_tr sb' /\ ra = rb) \/
+    (exists m l' e, m_tr sa' = ObMeta m :: l' ++ m_tr sa /\ ra = inr e /\
+                    feed_ok Xa emit_a now (tr_metas ctx l') (m_x sa) /\
+                    snd (emit_a now m (feed Xa emit_a now (tr_metas ctx l') (m_x sa))) = Some e).
+  Proof.
+    intros S Ha Hb. pose proof (C13_frozen _ _ _ _ _ _ _ _ _ _ _ Ha) as (_ & (l & L & _ & _ & O) & _).
+    destruct O as [O|(m & l' & e & -> & K & O & E)].
+    - left. eapply C10_nonintrusive; eauto. intros l0 Hl0.
+      assert (l0 = l) by (apply (app_inv_tail (m_tr sa)); congruence). now subst.
+    - right. exists m, l', e. repeat split; auto. destruct ra; [discriminate | now inversion K].
+  Qed.
+
+  (* (b) in particular a run that returns normally is the run without listeners *)
+  Corollary C10_nonintrusive_ok fuel now sa sb sa' macro sb' rb :
+    sim sa sb ->
+    execute_once ctx Xa exec_code eval_code emit_a sc fuel now sa = (sa', inl macro) ->
+    execute_once ctx Xb exec_code eval_code emit_b sc fuel now sb = (sb', rb) ->
+    m_i sa' = m_i sb' /\ m_tr sa' = m_tr sb' /\ rb = inl macro.
+  Proof.
+    intros S Ha Hb. destruct (C10_nonintrusive_or_raised _ _ _ _ _ _ _ _ S Ha Hb) as [(H1 & H2 & H3)|H].
+    - auto.
+    - destruct H as (m & l' & e & _ & K & _). discriminate.
+  Qed.
+End NonIntrusive.
+
+(* ====================================================================== names_ok is needed *)
+(* Without names_ok (the state registered under a name has that name) C10_complete is false for
+   the model: enter_state emits the .name of the state object, spec_meta the key it was looked up
+   with.  (Statechart.add_state registers a state under state.name, so every chart built through
+   the API satisfies names_ok; it is part of well-formedness.) *)
+Module NamesOkNeeded.
+  Open Scope string_scope.
+  Open Scope list_scope.
+  Definition bad_chart : chart :=
+    mkChart "bad" None None
+      [("r", mkState "q" KBasic None None None None [] [] []);
+       ("q", mkState "q" KBasic None None None None [] [] [])]
+      [("r", None); ("q", None)] [(None, ["r"; "q"])] [].
+  Definition ex (c : call unit) (x : unit) : option (unit * list event) := Some (tt, []).
+  Definition ev (c : call unit) (x : unit) : option bool := Some true.
+  Definition rec_emit (t : Z) (m : meta) (x : list meta) : list meta * option err := (x ++ [m], None).
+  Definition run :=
+    execute_once unit (list meta) ex ev rec_emit bad_chart 5 0%Z (mkM (init_istate 0 0%Z false tt) [] []).
+
+  Theorem C10_complete_without_names_ok_refuted :
+    exists macro, snd run = inl macro /\
+                  tr_metas unit (m_tr (fst run)) <> spec_meta bad_chart 0%Z macro /\
+                  m_x (fst run) <> spec_meta bad_chart 0%Z macro.
+  Proof. eexists. split; [vm_compute; reflexivity|]. split; vm_compute; discriminate. Qed.
+End NamesOkNeeded.
+
 Print Assumptions C13_frozen.
 Print Assumptions C10_apply_step_meta.
 Print Assumptions C10_complete.
 Print Assumptions C10_prefix.
+Print Assumptions C13_entry_idle.
+Print Assumptions C13_after_idle_base.
+Print Assumptions C15_sent_truth.
+Print Assumptions C15_self_raise_event.
+Print Assumptions C15_self_run_steps.
+Print Assumptions C15_self.
+Print Assumptions C10_sync_execute.
+Print Assumptions C10_nonintrusive.
+Print Assumptions C10_nonintrusive_never.
+Print Assumptions C10_nonintrusive_or_raised.
+Print Assumptions C10_nonintrusive_ok.
+Print Assumptions NamesOkNeeded.C10_complete_without_names_ok_refuted.
